@@ -99,11 +99,12 @@ class Gen(object):
                             cv=r.choice([ABSENT, ABSENT, "v1", "v2"]))
             ty = r.choice(["ping", "list", "claim", "open", "bogus", ABSENT])
         else:
-            ty = r.choice(["allocate", "claim", "claim", "release", "open", "open", "add", "add",
-                           "add", "close", "close", "list", "bind", "ping", "bogus", ABSENT]
-                          if r.random() < 0.15 * p["w_malformed"] else
-                          ["allocate", "claim", "claim", "release", "open", "open", "add", "add",
-                           "add", "close", "close", "list"])
+            w = dict(allocate=1, claim=2, release=1, open=2, add=3, close=2, list=1)
+            w.update(p.get("type_weights", {}))
+            if r.random() < 0.15 * p["w_malformed"]:
+                w.update(bind=1, ping=1, bogus=1)
+                w[ABSENT] = 1
+            ty = r.choices(list(w), weights=[w[k] for k in w])[0]
         m = msg0(type=ty)
         if ty == "ping":
             m["ping"] = opt("p")
@@ -203,6 +204,8 @@ class Gen(object):
 def backfill(e, obs, gen_before, drv):
     """Fill in what only the execution can tell: the generated mailbox id and
     the random pick of allocate, so that the event is fully determined."""
+    if e["k"] == "CrashInCmd":
+        return e      # filled in by the driver before it rolled the step back
     if e["k"] in ("Cmd", "CrashInCmd"):
         if drv.tokens.gen > gen_before:
             e["gid"] = "g%d" % drv.tokens.gen
@@ -223,7 +226,11 @@ def run_random(rng, drv, profile, tid):
         if e["k"] in ("CrashInCmd", "CrashInSweep"):
             # the number of durable changes is only known afterwards: clip
             pass
-        o = drv.step(e)
+        extra = None
+        if p.get("extra_keys") and e["k"] == "Cmd" and rng.random() < 0.3:
+            extra = {rng.choice(["x", "nonce", "Type", "mailbox_id", "app", "extra"]):
+                     rng.choice([None, 0, 1.5, "s", [1, 2], {"a": "b"}, "\u00e9"])}
+        o = drv.step(e, extra_json=extra)
         backfill(e, o, gen_before, drv)
         o["tid"] = tid
         o["i"] = len(obs_list) + 1
@@ -231,6 +238,15 @@ def run_random(rng, drv, profile, tid):
         g.note(o)
         return o
     do(ev0("Start"))
+    # optional prefill: explicit claims of chosen names by short-lived connections
+    for (app, name) in p.get("prefill", []):
+        c = drv.conn_names[0]
+        if drv.conn_flags()[c]["up"]:
+            do(ev0("Drop", c=c))
+        do(ev0("Connect", c=c))
+        do(ev0("Cmd", c=c, m=msg0(type="bind", appid=app, side=rng.choice(p["sides"]))))
+        do(ev0("Cmd", c=c, m=msg0(type="claim", nameplate=name)))
+        do(ev0("Drop", c=c))
     for _ in range(p["steps"]):
         do(g.next_event())
     if p["final_quiesce"]:
@@ -253,4 +269,209 @@ def run_random(rng, drv, profile, tid):
                 do(ev0("Advance", d=min(drv.next_sweep - now, target - now)))
         if drv.now_ticks() >= drv.next_sweep:
             do(ev0("Sweep"))
+    return obs_list
+
+
+# ---------------------------------------------------------------------------
+# scripted clients: wormhole-like flows with realistic disturbances
+
+class Client(object):
+    """one logical client (an app + side) following a role's script"""
+
+    def __init__(self, name, app, side, role, conn):
+        self.name, self.app, self.side, self.role, self.conn = name, app, side, role, conn
+        self.pc = 0
+        self.np = None        # nameplate it works with
+        self.mbox = None      # mailbox id it learnt
+        self.last = None      # last command sent (for re-sending)
+        self.connected = False
+        self.done = False
+
+
+SCRIPTS = {
+    # what the real client does, more or less
+    "sender": ["bind", "allocate", "claim", "open", "add", "add", "release", "add", "close"],
+    "receiver": ["bind", "claim", "open", "add", "release", "add", "close"],
+    "lazy": ["bind", "claim", "open", "add", "close"],               # never releases
+    "norelease2": ["bind", "claim", "open", "close", "release"],      # odd order
+    "intruder": ["bind", "claim", "claim!", "open", "claim!", "open!", "add"],   # "!" = on a fresh connection
+    "standalone": ["bind", "open", "add", "add", "close"],
+    "lister": ["bind", "list", "allocate", "list", "release", "list"],
+}
+
+
+def run_scripted(rng, drv, profile, tid):
+    p = dict(DEFAULT)
+    p.update(profile)
+    obs_list = []
+    g = Gen(rng, drv, p)
+
+    def do(e):
+        gen_before = drv.tokens.gen
+        o = drv.step(e)
+        backfill(e, o, gen_before, drv)
+        o["tid"], o["i"] = tid, len(obs_list) + 1
+        obs_list.append(o)
+        return o
+    do(ev0("Start"))
+    slots = list(drv.conn_names)
+    nclients = min(len(slots) - 1, rng.choice([2, 2, 3, 3, 4]))
+    shared = dict(np=None, mbox=rng.choice(p["client_mbox"]))
+    roles = ["sender", rng.choice(["receiver", "receiver", "lazy", "norelease2"])] + \
+        [rng.choice(["intruder", "standalone", "lister", "receiver"]) for _ in range(nclients - 2)]
+    sides = list(p["sides"])
+    clients = []
+    for k, role in enumerate(roles):
+        side = sides[k % len(sides)] if role != "intruder" else sides[-1]
+        app = p["apps"][0] if (role in ("sender", "receiver", "lazy", "norelease2", "intruder") or len(p["apps"]) == 1) \
+            else rng.choice(p["apps"])
+        clients.append(Client("k%d" % k, app, side, role, slots[k]))
+    spare = slots[-1]
+    moods = ["happy", "lonely", "errory", "scary", ABSENT]
+
+    def ensure(cl, fresh=False):
+        """(re)connect and bind"""
+        fl = drv.conn_flags()[cl.conn]
+        if fresh and fl["up"]:
+            do(ev0("Drop", c=cl.conn))
+            fl = drv.conn_flags()[cl.conn]
+        if not fl["up"]:
+            do(ev0("Connect", c=cl.conn))
+            do(ev0("Cmd", c=cl.conn, m=msg0(type="bind", appid=cl.app, side=cl.side,
+                                            cv=rng.choice([ABSENT, "v1"]))))
+            return True
+        return False
+
+    def command(cl, op):
+        m = None
+        if op == "allocate":
+            m = msg0(type="allocate")
+        elif op == "claim":
+            n = shared["np"] if (cl.role != "lister" and shared["np"]) else cl.np
+            if n is None:
+                n = rng.choice(p["names"])
+            cl.np = n
+            m = msg0(type="claim", nameplate=n)
+        elif op == "open":
+            i = cl.mbox or (shared["mbox"] if cl.role in ("standalone", "intruder") else None)
+            if i is None:
+                return None
+            cl.mbox = i
+            m = msg0(type="open", mailbox=i)
+        elif op == "add":
+            m = msg0(type="add", phase=rng.choice(["p1", "p2", "p3"]), body=rng.choice(["b1", "b2", "b3"]),
+                     id=rng.choice([ABSENT, "i1", "i2"]))
+        elif op == "release":
+            m = msg0(type="release", nameplate=rng.choice([ABSENT, cl.np or ABSENT]))
+        elif op == "close":
+            m = msg0(type="close", mailbox=rng.choice([ABSENT, cl.mbox or ABSENT]), mood=rng.choice(moods))
+        elif op == "list":
+            m = msg0(type="list")
+        return m
+
+    def learn(cl, o):
+        for f in o["out"]:
+            if f["type"] == "allocated":
+                cl.np = f["nameplate"]
+                if cl.role == "sender":
+                    shared["np"] = f["nameplate"]
+            if f["type"] == "claimed":
+                cl.mbox = f["mailbox"]
+                if cl.role in ("sender", "receiver", "lazy", "norelease2"):
+                    shared["mbox_np"] = f["mailbox"]
+
+    steps = 0
+    while steps < p["steps"] and any(not c.done for c in clients):
+        steps += 1
+        if not drv.up:
+            do(ev0("Start"))
+            continue
+        now = drv.now_ticks()
+        if now >= drv.next_sweep:
+            do(ev0("Sweep", fault=(rng.random() < 0.03 * p["w_fault"])))
+            continue
+        x = rng.random()
+        if x < 0.10:
+            do(ev0("Advance", d=min(rng.choice(p["advance"]), drv.next_sweep - now)))
+            continue
+        if x < 0.10 + 0.02 * p["w_stop"]:
+            do(ev0(rng.choice(["Stop", "Crash"])))
+            continue
+        cl = rng.choice([c for c in clients if not c.done])
+        script = SCRIPTS[cl.role]
+        if cl.pc >= len(script):
+            cl.done = True
+            if rng.random() < 0.5 and drv.conn_flags()[cl.conn]["up"]:
+                do(ev0("Drop", c=cl.conn))
+            continue
+        op = script[cl.pc]
+        fresh = op.endswith("!")
+        op = op.rstrip("!")
+        if op == "bind":
+            ensure(cl)
+            cl.pc += 1
+            continue
+        y = rng.random()
+        reconnected = ensure(cl, fresh=fresh or y < 0.12)
+        if reconnected and cl.mbox and cl.pc > script.index("open") if "open" in script else False:
+            # a reconnecting client re-opens its mailbox; sometimes re-sends its last command first
+            if cl.last is not None and rng.random() < 0.5:
+                o = do(ev0("Cmd", c=cl.conn, m=dict(cl.last)))
+                learn(cl, o)
+            o = do(ev0("Cmd", c=cl.conn, m=msg0(type="open", mailbox=cl.mbox)))
+        elif reconnected and cl.last is not None and rng.random() < 0.6:
+            o = do(ev0("Cmd", c=cl.conn, m=dict(cl.last)))
+            learn(cl, o)
+        if y > 0.93 and cl.mbox and not drv.conn_flags()[spare]["up"]:
+            # a second connection of the same side subscribes as well
+            do(ev0("Connect", c=spare))
+            do(ev0("Cmd", c=spare, m=msg0(type="bind", appid=cl.app, side=cl.side)))
+            do(ev0("Cmd", c=spare, m=msg0(type="open", mailbox=cl.mbox)))
+        elif y > 0.90 and drv.conn_flags()[spare]["up"]:
+            do(ev0("Drop", c=spare))
+        m = command(cl, op)
+        cl.pc += 1
+        if m is None:
+            continue
+        o = do(ev0("Cmd", c=cl.conn, m=m))
+        if m["type"] in ("claim", "release", "open", "close"):
+            cl.last = m
+        learn(cl, o)
+    if p["final_quiesce"]:
+        if not drv.up:
+            do(ev0("Start"))
+        for c in drv.conn_names:
+            if drv.conn_flags()[c]["up"]:
+                do(ev0("Drop", c=c))
+        exp = drv.to_ticks(drv.m["tap"].CHANNEL_EXPIRATION_TIME)
+        per = drv.to_ticks(drv.period_secs)
+        target = drv.now_ticks() + exp + 2 * per
+        guard = 0
+        while drv.now_ticks() < target and guard < 200:
+            guard += 1
+            now = drv.now_ticks()
+            if now >= drv.next_sweep:
+                do(ev0("Sweep"))
+            else:
+                do(ev0("Advance", d=min(drv.next_sweep - now, target - now)))
+        if drv.now_ticks() >= drv.next_sweep:
+            do(ev0("Sweep"))
+        # somebody comes back after everything expired: the same ids start afresh
+        if rng.random() < 0.7:
+            c = drv.conn_names[0]
+            do(ev0("Connect", c=c))
+            do(ev0("Cmd", c=c, m=msg0(type="bind", appid=clients[0].app, side=clients[0].side)))
+            for i in [shared["mbox"], shared.get("mbox_np")]:
+                if i:
+                    do(ev0("Cmd", c=c, m=msg0(type="open", mailbox=i)))
+                    do(ev0("Cmd", c=c, m=msg0(type="add", phase="p1", body="b1")))
+                    do(ev0("Cmd", c=c, m=msg0(type="close", mailbox=i, mood=ABSENT)))
+                    break
+            do(ev0("Drop", c=c))
+            c2 = drv.conn_names[1]
+            do(ev0("Connect", c=c2))
+            do(ev0("Cmd", c=c2, m=msg0(type="bind", appid=clients[0].app, side=clients[0].side)))
+            i = shared["mbox"]
+            do(ev0("Cmd", c=c2, m=msg0(type="open", mailbox=i)))
+            do(ev0("Drop", c=c2))
     return obs_list
